@@ -195,6 +195,9 @@ class Cfg:
     src_path: tuple = (1,)
     dst_path: tuple = (2,)
     # a second remote entity in the SOURCE's MIB (nobody answers for it): {"id": 3, "idw": 2, <Cfg field overrides>}
+    # the receiver's view of the sender may use other timer intervals / limits than the sender's view of the receiver:
+    # overrides of Cfg fields for the DESTINATION's remote entity configuration (e.g. {"ack_ms": 250, "nak_ms": 250})
+    dst_over: dict | None = None
     alt_remote: dict | None = None
     put_to_alt: bool = False      # the next put request addresses the alternative remote
 
@@ -437,7 +440,11 @@ class World:
         du = RecUser(self.dst_vfs, self.dst.log); du.pm = self.pm
         dfh = self._faults(self.dst.log, c.dst_faults)
         d_local = LocalEntityCfg(UnsignedByteField(c.dst_id, c.dst_idw), ind, dfh)
-        d_remote = remote_cfg(c, c.src_id, c.src_idw)
+        if c.dst_over:
+            import dataclasses
+            d_remote = remote_cfg(dataclasses.replace(c, **c.dst_over), c.src_id, c.src_idw)
+        else:
+            d_remote = remote_cfg(c, c.src_id, c.src_idw)
         self.dst.h = DestHandler(d_local, du, RemoteEntityCfgTable([d_remote]), TimerProv(c.check_ms))
         self.dst.ops.append([9, c.dst_id, c.dst_idw] + [int(x) for x in c.ind] +
                             self._enc_faults(dfh) + [c.check_ms, 1] + enc_rcfg(d_remote))
@@ -666,7 +673,7 @@ class Runner:
     def run(self, tick_ms=None):
         """Run rounds; when a round has no activity, advance the clock by one timer interval."""
         c = self.w.cfg
-        tick = tick_ms or min(c.ack_ms, c.nak_ms, c.check_ms)
+        tick = tick_ms or min([c.ack_ms, c.nak_ms, c.check_ms] + [v for k, v in (c.dst_over or {}).items() if k.endswith("_ms")])
         idle_rounds = 0
         while self.round < self.max_rounds:
             a = self.step_round()
